@@ -6,6 +6,7 @@ import (
 	"context"
 	"fmt"
 	"math"
+	"strconv"
 	"strings"
 	"testing"
 
@@ -45,7 +46,14 @@ func d8Fold(n *Node) *Node {
 	c := n.Clone()
 	c.Walk(func(x *Node) {
 		if integralNumeric(x) && math.Abs(x.F) < 9.2e18 {
-			x.K, x.I, x.F = KInt, int64(x.F), 0
+			// the integer that the printed digits spell: beyond 2^53 the shortest decimal
+			// form of the double is not its exact value (2.7000000001e18 prints as
+			// 2700000000100000000, the double is ...099999744)
+			i, err := strconv.ParseInt(strconv.FormatFloat(x.F, 'f', -1, 64), 10, 64)
+			if err != nil {
+				i = int64(x.F)
+			}
+			x.K, x.I, x.F = KInt, i, 0
 		}
 	})
 	return c
